@@ -61,7 +61,7 @@ GV(x, y, F(_, _)) == LET nv == Max2(Len(x), Len(y))
                      IN [c \in 1 .. nv |-> F(IF Len(x) = 1 THEN x[1] ELSE x[c], IF Len(y) = 1 THEN y[1] ELSE y[c])]
 RECURSIVE GSum(_)
 GSum(s)      == IF s = <<>> THEN GZ ELSE GAdd(Head(s), GSum(Tail(s)))
-GDot(x, y)   == GSum([c \in 1 .. Len(x) |-> GMul(x[c], y[c])])
+GDot(x, y)   == GSum(GV(x, y, GMul))
 GCross(x, y) == <<GSub(GMul(x[2], y[3]), GMul(x[3], y[2])),
                   GSub(GMul(x[3], y[1]), GMul(x[1], y[3])),
                   GSub(GMul(x[1], y[2]), GMul(x[2], y[1]))>>
@@ -123,13 +123,13 @@ EWDefined(op, a, b) ==
      [] op \in {"max", "min"} -> AllReal(a) /\ AllReal(b) /\ Sz(a) <= 30000 /\ Sz(b) <= 30000
 ProdDefined(a, b) == IF AllInt(a) /\ AllInt(b) THEN Sz(a) <= 10000 /\ Sz(b) <= 10000
                      ELSE Sz(a) <= 300 /\ Sz(b) <= 300 /\ Sz(a) * Sz(b) <= 300
-NormDefined(a)    == IF AllInt(a) THEN Sz(a) <= 10000 ELSE Sz(a) <= 17
+NormDefined(a)    == IF AllInt(a) THEN Sz(a) <= 10000 ELSE Sz(a) <= 12
 
 (* ---------------------------------------------------------------------------------- *)
 (* metadata rules                                                                      *)
 (* result of a call on field f that keeps / changes the component count *)
 KeepMeta(f, nv) == IF nv = f.nv THEN [vdims |-> f.vdims, map |-> f.map]
-                   ELSE [vdims |-> DefaultVdims(nv), map |-> DefaultMap(f.m, nv)]
+                   ELSE [vdims |-> DefaultVdims(nv), map |-> <<>>]
 (* element-wise operation between two fields: labels and mapping of the vector operand *)
 (* (of the left one when both are vectors)                                              *)
 BinMeta(x, y) == IF x.nv >= y.nv THEN [vdims |-> x.vdims, map |-> x.map]
@@ -157,7 +157,7 @@ EWReg(op, a, b) ==
        md == IF IsField(a) /\ IsField(b) THEN BinMeta(a, b) ELSE KeepMeta(s, nv)
    IN MkField(s.m, nv, IF vx THEN EWVal(op, a, b) ELSE ZeroVal(Len(s.val), nv), vx, EWValid(a, b),
               IF Len(md.vdims) = nv \/ nv = 1 THEN md.vdims ELSE DefaultVdims(nv),
-              IF Len(md.vdims) = nv \/ nv = 1 THEN md.map ELSE DefaultMap(s.m, nv), <<>>)
+              IF Len(md.vdims) = nv \/ nv = 1 THEN md.map ELSE <<>>, <<>>)
 
 (* ---------------------------------------------------------------------------------- *)
 (* unary operations                                                                    *)
@@ -196,7 +196,8 @@ OrientReg(f) == LET n2 == [k \in DOMAIN f.val |-> GNorm2(f.val[k])]
 (* dot, cross, angle.  `f` is the field whose method is called, `o` a field or vector  *)
 VProdCompatible(kind, f, o) ==
    CASE IsField(o) -> f.m = o.m /\ f.nv = o.nv /\ (kind = "cross" => f.nv = 3)
-     [] IsVec(o)   -> f.nv = Len(o.val) /\ (kind = "cross" => f.nv = 3)
+     [] IsVec(o)   -> IF kind = "dot" THEN f.nv = Len(o.val) \/ f.nv = 1 \/ Len(o.val) = 1
+                      ELSE f.nv = Len(o.val) /\ (kind = "cross" => f.nv = 3)
      [] IsNum(o)   -> kind = "angle" /\ f.nv = 1
      [] OTHER      -> FALSE
 VPValid(f, o) == IF IsField(o) THEN AndArr(f.valid, o.valid) ELSE f.valid
@@ -330,9 +331,9 @@ LaplaceReg(f) == OpaqueReg(f, f.nv, IF f.nv = 1 THEN [vdims |-> f.vdims, map |->
 
 (* ---------------------------------------------------------------------------------- *)
 (* validity setter                                                                      *)
-BitAt(bits, k)      == (bits \div (2 ^ (k - 1))) % 2 = 1
+BitAt(bits, k)      == IF k > 30 THEN FALSE ELSE (bits \div (2 ^ (k - 1))) % 2 = 1
 BitsMask(bits, N)   == [k \in 1 .. N |-> BitAt(bits, k)]
-NormMask(f)         == [k \in DOMAIN f.val |-> ~GIsZero(GNorm2(f.val[k]))]
+NormMask(f)         == [k \in DOMAIN f.val |-> \E c \in 1 .. f.nv : ~GIsZero(f.val[k][c])]
 SetValidMask(f, spec) ==
    CASE spec[1] \in {"array", "intarray", "func"} -> BitsMask(spec[2], Len(f.valid))
      [] spec[1] = "const" -> [k \in DOMAIN f.valid |-> spec[2] = 1]
@@ -342,8 +343,9 @@ SetValidMask(f, spec) ==
 (* ================================================================================== *)
 (* the machine                                                                         *)
 CONSTANTS Pool,       \* pool id -> register record (fields carry their own mask)
-          InitSet,    \* set of <<sequence of <<pool id, mask bits or -1>>, depth>>
+          InitSet,    \* set of <<sequence of <<pool id, mask bits or -1>>, [d |-> program depth, x |-> extra actions enabled]>>
           Ops,        \* names of the enabled actions
+          DeepOps,    \* ... of those enabled after the first instruction
           MaskPats,   \* mask bit patterns offered to the validity setter
           PadModes, RotKs
 
@@ -376,12 +378,10 @@ Reg(rs, i) == rs[i]
 InModel(rs, ins) ==
    LET op == ins[1]  a == rs[ins[2]]  x == ins[4]
        b  == IF ins[3] > 0 THEN rs[ins[3]] ELSE a
-   IN CASE op \in UnaryOps -> IsField(a)
+   IN CASE op \in {"norm", "orientation"} -> IsField(a) /\ (a.vx => NormDefined(a))
+        [] op \in UnaryOps -> IsField(a)
         [] op \in EWOps -> /\ (IsField(a) \/ IsField(b)) /\ (op = "pow" => IsField(a) /\ ~IsVec(b) /\ ~IsArr(b))
                            /\ (IsArr(OtherOf(a, b)) => EWCompatible(a, b))
-                           \* two fields with equally many components but different labels: the property
-                           \* wants a*b = b*a including labels, no rule for the labels is stated - outside the model
-                           /\ (op \in {"add", "mul"} /\ IsField(a) /\ IsField(b) /\ a.nv = b.nv) => SameLabels(a, b)
                            /\ (EWCompatible(a, b) /\ HasVals(a) /\ HasVals(b)) => EWDefined(op, a, b)
         [] op \in {"dot", "cross"} -> /\ (IsField(a) /\ (IsField(b) \/ IsVec(b))) \/ (IsVec(a) /\ IsField(b))
                                       /\ (VProdCompatible(op, SelfOf(a, b), OtherOf(a, b)) /\ HasVals(a) /\ HasVals(b)) => ProdDefined(a, b)
@@ -412,6 +412,13 @@ InModel(rs, ins) ==
         [] op = "vtk" -> IsField(a) /\ Len(a.m.n) = 3
         [] op = "set_valid" -> IsField(a) /\ (x[1] = "norm" => a.vx)
         [] op = "mutate_valid" -> IsField(a) /\ x \in DOMAIN a.valid
+
+(* two fields with equally many components but different labels: the property wants     *)
+(* a*b = b*a including labels and states no rule for the labels - outside the model     *)
+LabelsDecided(rs, ins) ==
+   LET op == ins[1]  a == rs[ins[2]]
+       b  == IF ins[3] > 0 THEN rs[ins[3]] ELSE a
+   IN (op \in {"add", "mul"} /\ IsField(a) /\ IsField(b) /\ a.nv = b.nv) => SameLabels(a, b)
 
 Accepted(rs, ins) ==
    LET op == ins[1]  a == rs[ins[2]]
@@ -467,22 +474,26 @@ Changed(rs, rs2) == {j \in DOMAIN rs : rs2[j] # rs[j]}
 
 UsesLast(ins) == prog = <<>> \/ ins[2] = Len(regs) \/ ins[3] = Len(regs)
 Do(ins) == /\ obs.live
-           /\ Len(prog) < init[2]
-           /\ UsesLast(ins)
-           /\ InModel(regs, ins)
+           /\ Len(prog) < init[2].d
+           /\ UsesLast(ins) = TRUE
+           \* initial register files marked `two`: only instructions that combine the two registers
+           /\ (("two" \in init[2].x /\ prog = <<>>) => (ins[3] > 0 /\ ins[3] # ins[2])) = TRUE
+           /\ InModel(regs, ins) = TRUE
+           /\ LabelsDecided(regs, ins) = TRUE
            /\ prog' = Append(prog, ins)
            /\ UNCHANGED init
            /\ IF Accepted(regs, ins)
               THEN LET rs2 == Apply(regs, ins, Len(prog) + 1)
                        w   == Written(regs, ins)
                    IN /\ regs' = rs2
-                      /\ obs' = [ok |-> TRUE, live |-> ins[1] # "mutate_valid", r |-> w, reg |-> rs2[w], ch |-> Changed(regs, rs2)]
+                      /\ obs' = [ok |-> TRUE, live |-> ins[1] # "mutate_valid", r |-> w, reg |-> rs2[w], ch |-> Changed(regs, rs2),
+                                  pre |-> IF w <= Len(regs) THEN regs[w] ELSE <<>>]
               ELSE regs' = regs /\ obs' = Rej
 
 R1 == DOMAIN regs
 Fields == {i \in DOMAIN regs : IsField(regs[i])}
 NonFields == DOMAIN regs \ Fields
-En(name) == name \in Ops
+En(name) == name \in (IF prog = <<>> THEN Ops ELSE DeepOps)
 
 (* ---- one action per public call ---------------------------------------------------- *)
 Neg         == En("neg") /\ \E i \in Fields : Do(<<"neg", i, 0, <<>>>>)
@@ -530,8 +541,9 @@ Blocks(n) == {<<[e \in DOMAIN n |-> IF e = d THEN j1 ELSE 0], [e \in DOMAIN n |-
              \cup {<<[e \in DOMAIN n |-> 0], [e \in DOMAIN n |-> 0]>>, <<[e \in DOMAIN n |-> n[e] - 1], [e \in DOMAIN n |-> n[e] - 1]>>,
                    <<[e \in DOMAIN n |-> IF n[e] > 1 THEN 1 ELSE 0], [e \in DOMAIN n |-> n[e] - 1]>>}
 GetItem     == En("getitem") /\ \E i \in Fields : \E bl \in Blocks(regs[i].m.n) : Do(<<"getitem", i, 0, bl>>)
-Pad         == En("pad") /\ \E i \in Fields : \E d \in DOMAIN regs[i].m.n, l \in 0 .. 2, r \in 0 .. 2, md \in PadModes :
-                  Do(<<"pad", i, 0, <<d, l, r, md>>>>)
+PadWidths   == {<<1, 0>>, <<0, 2>>, <<1, 1>>, <<2, 1>>}
+Pad         == En("pad") /\ \E i \in Fields : \E d \in DOMAIN regs[i].m.n, w \in PadWidths, md \in PadModes :
+                  Do(<<"pad", i, 0, <<d, w[1], w[2], md>>>>)
 ResampleTargets(n) == {[d \in DOMAIN n |-> n[d] * f[d]] : f \in [DOMAIN n -> {1, 2, 3}]}
                       \cup {[d \in DOMAIN n |-> IF n[d] % 3 = 0 THEN n[d] \div 3 ELSE n[d]]}
                       \cup {[d \in DOMAIN n |-> 1]}
@@ -542,9 +554,9 @@ H5RoundTrip == En("h5") /\ \E i \in Fields : Do(<<"h5", i, 0, <<>>>>)
 VTKRoundTrip == En("vtk") /\ \E i \in Fields : Do(<<"vtk", i, 0, <<>>>>)
 SetValidSpecs == {<<k, p>> : k \in {"array", "intarray", "func"}, p \in MaskPats}
                  \cup {<<"const", 0>>, <<"const", 1>>, <<"none", 0>>, <<"norm", 0>>}
-SetValid    == En("set_valid") /\ \E i \in Fields : \E sp \in SetValidSpecs : Do(<<"set_valid", i, 0, sp>>)
+SetValid    == En("set_valid") /\ "set_valid" \in init[2].x /\ \E i \in Fields : \E sp \in SetValidSpecs : Do(<<"set_valid", i, 0, sp>>)
 (* an in-place write into the mask of the register written last *)
-MutateValid == En("mutate_valid") /\ prog # <<>> /\ obs.ok /\ obs.r > 0 /\ Do(<<"mutate_valid", obs.r, 0, 1>>)
+MutateValid == En("mutate_valid") /\ "mutate" \in init[2].x /\ prog # <<>> /\ obs.ok /\ obs.r > 0 /\ Do(<<"mutate_valid", obs.r, 0, 1>>)
 
 Next == \/ Neg \/ Pos \/ Abs_ \/ Real \/ Imag \/ Conjugate \/ CAbs \/ Phase \/ Norm \/ Orientation
         \/ Add \/ ReflAdd \/ Sub \/ ReflSub \/ Mul \/ ReflMul \/ TrueDiv \/ ReflTrueDiv \/ Pow
